@@ -13,7 +13,8 @@ F_PFB = 'atsim/potentials/config/_potential_form_builder.py'
 FUNCTIONS = [(F, 'Multi_Range_Potential_Form._range_search'), (F, 'Multi_Range_Potential_Form.__call__'), (F, 'Multi_Range_Potential_Form_Deriv.deriv'),
              (F, 'Multi_Range_Potential_Form_Deriv2.deriv2'), (F, 'Multi_Range_Defn.__init__'), (F, '_range_defn_cmp'),
              (contracts.potential.F_UTIL, 'gradient'), (F, 'Multi_Range_Potential_Form.range_defns.setter'),
-             (F_PFB, 'Potential_Form_Builder._make_multi_range_tuple'), (F_PFB, 'Potential_Form_Builder.create_potential_function')]
+             (F_PFB, 'Potential_Form_Builder._make_multi_range_tuple'), (F_PFB, 'Potential_Form_Builder.create_potential_function'),
+             (F, 'Multi_Range_Potential_Form.__init__'), (F, 'create_Multi_Range_Potential_Form@construction')]
 import contracts.form_builder as FB
 SPECSEQS = [FB.chain_ranges]
 
@@ -63,6 +64,13 @@ MUTANTS = [
     (F, 'Multi_Range_Potential_Form._range_search', "rt[0].range_type == '>'", "rt[0].range_type == '>='", 'post'),
     (F, '_range_defn_cmp', "if a.range_type == '>=' and b.range_type == '>':\n            return -1", "if a.range_type == '>=' and b.range_type == '>':\n            return 1", 'post'),
     (F, 'Multi_Range_Potential_Form_Deriv.deriv', "return rt.deriv(r)", "return rt.deriv2(r)", 'post'),
+    (F, 'create_Multi_Range_Potential_Form@construction', "if any_deriv2:", "if any_deriv:", 'post'),
+    (F, 'create_Multi_Range_Potential_Form@construction', "elif any_deriv:", "elif not any_deriv:", 'post'),
+    (F, 'create_Multi_Range_Potential_Form@construction', "any_deriv = any_deriv or rt.has_deriv", "any_deriv = rt.has_deriv", 'preserve'),
+    (F, 'create_Multi_Range_Potential_Form@construction', "any_deriv2 = any_deriv2 or rt.has_deriv2", "any_deriv2 = any_deriv2 or rt.has_deriv", 'preserve'),
+    (F, 'create_Multi_Range_Potential_Form@construction', "cls(*range_tuples, **kwargs)", "cls(*range_tuples[1:], **kwargs)", 'post'),
+    (F, 'Multi_Range_Potential_Form.__init__', "kwargs.get('default_value', 0.0)", "kwargs.get('default_value', 1.0)", 'post'),
+    (F, 'Multi_Range_Potential_Form.__init__', "self.range_defns = range_defns", "self._range_defns = range_defns", 'post'),
     (F, 'Multi_Range_Potential_Form.__call__', "return self.default_value", "return rt", 'post') if False else
     (F, 'Multi_Range_Potential_Form_Deriv.deriv', "return 0.0", "return self.default_value", 'post'),
 ]
